@@ -169,6 +169,21 @@ def main(tier, only=None):
     ck.set_deadline(420 if quick else 3000)
     STATES = os.path.join(scratch(), 'states'); os.makedirs(STATES)
     bases = only or ['ext2', 'ext2dx', 'ext3', 'ext4', 'ext4csum', 'quota', 'inline', 'eashare', 'iexpand', 'deepext']
+    # runtime base: no quota feature, but well-formed legacy quota files /aquota.user and /aquota.group in the root directory whose usage numbers belong to
+    # another filesystem (tune2fs -O quota takes the limits from such files and has to compute the usage itself)
+    if not only or 'legacyq' in only:
+        DBG = tool('debugfs'); sc = scratch()
+        don = os.path.join(sc, 'donor.img'); open(don, 'wb').write(fsweep.base_data('lpffull'))
+        run([DBG, '-R', 'dump <3> %s/aquota.user' % sc, don], timeout=60); run([DBG, '-R', 'dump <4> %s/aquota.group' % sc, don], timeout=60)
+        tg = os.path.join(sc, 'legacyq.img'); open(tg, 'wb').write(fsweep.base_data('ext4'))
+        if os.path.exists(sc + '/aquota.user') and os.path.getsize(sc + '/aquota.user') > 0:
+            sp = os.path.join(sc, 'legacyq.dbg'); open(sp, 'w').write('write %s/aquota.user aquota.user\nwrite %s/aquota.group aquota.group\n' % (sc, sc))
+            run([DBG, '-w', '-f', sp, tg], timeout=60)
+            if run([E2FSCK, '-fn', tg], timeout=60)[0] == 0:
+                fsweep._cache['legacyq'] = open(tg, 'rb').read()
+                if 'legacyq' not in bases: bases = bases + ['legacyq']
+            else: log('C11: runtime base legacyq not usable')
+        bases = [b for b in bases if b != 'legacyq' or 'legacyq' in fsweep._cache]
     depth = 2 if quick else 3
     seen = {}; trans = 0; outcomes = {}; maxd = 0; frontier_left = 0
     samples = []
